@@ -55,3 +55,18 @@ def env_seed():
 
 def jsonable(o):
     return json.loads(json.dumps(o, default=_default))
+
+
+_partial_sink = None
+
+
+class ViolList(list):
+    """the per-case violation list of a monitor: every append is also streamed to the parent, so that a violation observed
+    before the case hangs or crashes (a corrupted model often does both) is not lost with the child"""
+    def append(self, v):
+        list.append(self, v)
+        if _partial_sink is not None and len(self) <= 8:
+            try:
+                _partial_sink(v)
+            except Exception:
+                pass
